@@ -197,7 +197,7 @@ static void deliver(size_t i) {
 }
 
 static void e2e(void) {
-  dir_b2 = !strcmp(vtok[1], "b2");
+  dir_b2 = !strncmp(vtok[1], "b2", 2);       /* "b1s"/"b2s": the same transfer, slow-success class */
   body2 = NULL;
   body2_len = 0;
   body_len = (size_t)atol(vtok[2]);
